@@ -21,6 +21,7 @@ macro_rules! props {
 props! {
     "C09" => props::c09::C09,
     "C10" => props::c10::C10,
+    "C11" => props::c11::C11,
     "C12" => props::c12::C12,
     "C13" => props::c13::C13,
     "C14" => props::c14::C14,
